@@ -132,4 +132,103 @@ theorem decodeCore_length {body : Bytes} {d : Decoded} (h : decodeCore body = so
 theorem decodeCore_min {body : Bytes} {d : Decoded} (h : decodeCore body = some d) : 39 ≤ body.length := by
   have := decodeCore_length h; omega
 
+/-! ### io.ReadFull over short reads -/
+
+/-- whatever the sizes of the reads (each at least one byte), `io.ReadFull` of `n` bytes returns
+the first `n` bytes of the stream once `n` reads have been allowed -/
+theorem readFull_eq_take : ∀ (chunks : List Nat) (stream : Bytes) (n : Nat), n ≤ chunks.length →
+    readFull stream chunks n = stream.take n
+  | _, _, 0, _ => by cases ‹List Nat› <;> simp [readFull]
+  | [], _, n + 1, h => by simp at h
+  | c :: cs, stream, n + 1, h => by
+    simp only [readFull]
+    have hk1 : 1 ≤ min (max c 1) (n + 1) := by omega
+    have hk2 : min (max c 1) (n + 1) ≤ n + 1 := by omega
+    generalize min (max c 1) (n + 1) = k at hk1 hk2
+    rw [readFull_eq_take cs (stream.drop k) (n + 1 - k) (by simp only [List.length_cons] at h; omega)]
+    have : n + 1 = k + (n + 1 - k) := by omega
+    conv => rhs; rw [this, List.take_add]
+
+/-! ### the address text host:port -/
+
+theorem dec_ne_nil (n : Nat) : dec n ≠ [] := by
+  unfold dec; split <;> simp
+
+theorem dec_length_pos (n : Nat) : 0 < (dec n).length :=
+  List.length_pos_iff.mpr (dec_ne_nil n)
+
+/-- decimal digits never contain a colon -/
+theorem colon_not_mem_dec : ∀ (n : Nat), colon ∉ dec n := by
+  intro n
+  induction n using Nat.strongRecOn with
+  | _ n ih =>
+    unfold dec
+    have hd : ∀ k, k < 10 → colon ≠ b8 (48 + k) := by
+      intro k hk e
+      have := congrArg UInt8.toNat e
+      rw [b8_toNat] at this
+      simp only [colon] at this
+      have h58 : (0x3a : UInt8).toNat = 58 := by decide
+      omega
+    split
+    · rename_i h; simp only [List.mem_singleton]; exact hd n h
+    · rename_i h
+      simp only [List.mem_append, List.mem_singleton, not_or]
+      exact ⟨ih (n / 10) (by omega), hd (n % 10) (by omega)⟩
+
+/-- `strconv.Itoa` is injective -/
+theorem dec_inj : ∀ (n m : Nat), dec n = dec m → n = m := by
+  intro n
+  induction n using Nat.strongRecOn with
+  | _ n ih =>
+    intro m e
+    have hb : ∀ a b, a < 10 → b < 10 → b8 (48 + a) = b8 (48 + b) → a = b := by
+      intro a b ha hb' e
+      have := b8_inj (by omega) (by omega) e
+      omega
+    unfold dec at e
+    split at e <;> split at e
+    · rename_i hn hm
+      simp only [List.cons.injEq, and_true] at e
+      exact hb _ _ hn hm e
+    · rename_i hn hm
+      have := congrArg List.length e
+      have := dec_length_pos (m / 10)
+      simp only [List.length_cons, List.length_nil, List.length_append] at *
+      omega
+    · rename_i hn hm
+      have := congrArg List.length e
+      have := dec_length_pos (n / 10)
+      simp only [List.length_cons, List.length_nil, List.length_append] at *
+      omega
+    · rename_i hn hm
+      obtain ⟨e1, e2⟩ := List.append_inj' e (by simp)
+      have h1 := ih (n / 10) (by omega) (m / 10) e1
+      simp only [List.cons.injEq, and_true] at e2
+      have h2 := hb _ _ (Nat.mod_lt _ (by omega)) (Nat.mod_lt _ (by omega)) e2
+      omega
+
+/-- a list is split in one way only at the first occurrence of `c` -/
+theorem append_cons_unique {α : Type} {c : α} : ∀ {u u' v v' : List α}, c ∉ u → c ∉ u' →
+    u ++ c :: v = u' ++ c :: v' → u = u' ∧ v = v'
+  | [], [], _, _, _, _, e => by simpa using e
+  | [], y :: ys, _, _, _, h', e => by
+    simp only [List.nil_append, List.cons_append, List.cons.injEq] at e
+    exact absurd e.1 (by intro h; apply h'; simp [h])
+  | x :: xs, [], _, _, h, _, e => by
+    simp only [List.nil_append, List.cons_append, List.cons.injEq] at e
+    exact absurd e.1.symm (by intro h'; apply h; simp [h'])
+  | x :: xs, y :: ys, _, _, h, h', e => by
+    simp only [List.cons_append, List.cons.injEq] at e
+    have := append_cons_unique (u := xs) (u' := ys) (fun m => h (by simp [m])) (fun m => h' (by simp [m])) e.2
+    exact ⟨by rw [e.1, this.1], this.2⟩
+
+/-- the address text determines the printed host and the port -/
+theorem hostPort_inj {h h' : Bytes} {p p' : Nat} (e : hostPort h p = hostPort h' p') : h = h' ∧ p = p' := by
+  unfold hostPort at e
+  have e' := congrArg List.reverse e
+  simp only [List.reverse_append, List.reverse_cons, List.append_assoc, List.singleton_append] at e'
+  have := append_cons_unique (c := colon) (by simpa using colon_not_mem_dec p) (by simpa using colon_not_mem_dec p') e'
+  exact ⟨List.reverse_inj.mp this.2, dec_inj _ _ (List.reverse_inj.mp this.1)⟩
+
 end Gotlcp.Lemmas.Cookie
